@@ -621,6 +621,9 @@ func existsPredicate(fn *ssa.Function) *existsSummary {
 				}
 			} else if _, f, ok := fieldLoad(ia.X); ok {
 				s.collField = f
+			} else if c, _ := callOf(ia.X); c != nil && c.Common().StaticCallee() != nil {
+				// the list is computed by a function of the package (e.g. fields())
+				s.collField = "call:" + funcName(c.Common().StaticCallee())
 			} else {
 				continue
 			}
@@ -692,4 +695,43 @@ func existsPredicate(fn *ssa.Function) *existsSummary {
 	}
 	existsCache[fn] = sum
 	return sum
+}
+
+// originsDeep is origins that also looks into the small unexported helpers of
+// the package: a result of such a helper stands for what its returns carry at
+// that position (the values are then values of the helper, whose parameters
+// keep their own identity).
+func originsDeep(v ssa.Value) []ssa.Value {
+	seen := map[ssa.Value]bool{}
+	var out []ssa.Value
+	var walk func(v ssa.Value, depth int)
+	walk = func(v ssa.Value, depth int) {
+		for _, o := range origins(v) {
+			if seen[o] {
+				continue
+			}
+			seen[o] = true
+			c, idx := callOf(o)
+			if c != nil && depth < 3 {
+				if g := c.Common().StaticCallee(); g != nil && g.Blocks != nil && smallHelper(g) {
+					if idx < 0 {
+						idx = 0
+					}
+					n := 0
+					for _, b := range g.Blocks {
+						if ret, ok := b.Instrs[len(b.Instrs)-1].(*ssa.Return); ok && idx < len(ret.Results) {
+							n++
+							walk(ret.Results[idx], depth+1)
+						}
+					}
+					if n > 0 {
+						continue
+					}
+				}
+			}
+			out = append(out, o)
+		}
+	}
+	walk(v, 0)
+	return out
 }
